@@ -162,6 +162,7 @@ def virtualise_locks():
 
 def _one_preemption(k, job_a, job_b, files, opcode):
     from . import vsched as vs
+    vs.install(0)          # (in the forked child only: the check process keeps the library's real threading / queue / time)
     virtualise_locks()
     s = vs.new_sched(k, max_steps=80000)
     suffixes = tuple(files)
@@ -203,6 +204,7 @@ def _one_preemption(k, job_a, job_b, files, opcode):
 def _pct_exec(seed, jobs, files, opcode, depth, horizon):
     """one execution under PCT scheduling: `depth` preemptions at random step indices below `horizon`"""
     from . import vsched as vs
+    vs.install(0)
     virtualise_locks()
     s = vs.new_sched(seed, max_steps=200000)
     suffixes = tuple(files)
@@ -234,8 +236,6 @@ def _pct_exec(seed, jobs, files, opcode, depth, horizon):
 def pct_runs(pairs, files, nruns, depth=2, opcode=False, judge=None, seed0=0):
     """`nruns` executions per pair under PCT scheduling with `depth` preemption points (two threads that are both stopped in the
     middle of a call: what the one-preemption sweep cannot produce).  Returns (executions, problems)."""
-    from . import vsched as vs
-    vs.install(0)
     problems, n = [], 0
     for desc, job_a, job_b in pairs:
         ref = forked(lambda: [["ok", repr(job_a())], ["ok", repr(job_b())]])
@@ -267,8 +267,6 @@ def purity_sweep(pairs, files, kmax=300, opcode=False, stride=1, judge=None):
     For each pair: the sequential results (A then B, in a fresh child) are the reference; then, for k = 0, stride, 2 stride, ...,
     A is stopped after k line (bytecode) steps inside the named files, B runs a complete call, A resumes - each execution in a
     child forked from this (untouched) process.  Returns (number of executions, list of (description, k, text))."""
-    from . import vsched as vs
-    vs.install(0)
     problems, n = [], 0
     for desc, job_a, job_b in pairs:
         ref = forked(lambda: [["ok", repr(job_a())], ["ok", repr(job_b())]])
